@@ -31,6 +31,15 @@ Record c05query := {
   q_http_tar : res (list (bytes * bytes))           (* GET keyrangevalues/lo/hi?jsontar=true *)
 }.
 
+(* a storage-level query with TKey ends (any classes) *)
+Record mquery := {
+  m_lo : bytes; m_hi : bytes;
+  m_range : res (list (bytes * bytes));     (* db.GetRange *)
+  m_keys : res (list bytes);                (* db.KeysInRange *)
+  m_process : res (list (bytes * bytes));   (* db.ProcessRange: the chunks handed to the callback *)
+  m_send : res (list bytes)                 (* db.SendKeysInRange: full storage keys *)
+}.
+
 Inductive c05case :=
 (* one version of one branched history of a keyvalue instance *)
 | CVersion (i v : N) (s : store) (table : list (bytes * verdict))
@@ -38,6 +47,12 @@ Inductive c05case :=
            (all_keys : res (list bytes))                                       (* GET keys *)
            (multi : res (list (bytes * bytes)))                                (* POST-body GET keyvalues?json=true for all key strings *)
            (queries : list c05query)
+(* one version of an instance whose TKeys lie in several classes, written through the storage API:
+   db.Get of every TKey of the universe, and range queries inside one class, across classes and
+   over the whole TKey space *)
+| CMulti (i v : N) (s : store) (table : list (bytes * verdict))
+         (points : list (bytes * res (option bytes)))
+         (queries : list mquery)
 (* db.DeleteRange(VersionedCtx(i, v), lo, hi) with TKeys lo, hi; db.Get of every (version, TKey) before and after *)
 | CDeleteRange (i v : N) (before : store) (table : list (bytes * verdict)) (lo hi : bytes)
                (go_ok : bool) (after : store)
@@ -86,6 +101,16 @@ Definition model_ok (c : c05case) : bool :=
                       res_eqb (opt_eqb bytes_eqb) g (point_model table i v k s)) points &&
     okeys_eqb all_keys (kv_keys (best_of table) (cxof i v) s) &&
     forallb (query_ok table i v s) queries
+  | CMulti i v s table points queries =>
+    let best := best_of table in
+    let cx := cxof i v in
+    forallb (fun p => res_eqb (opt_eqb bytes_eqb) (snd p) (Ok (point_get best cx (fst p) s))) points &&
+    forallb (fun q =>
+      okv_eqb (m_range q) (get_range best cx (m_lo q) (m_hi q) s) &&
+      okv_eqb (m_process q) (get_range best cx (m_lo q) (m_hi q) s) &&
+      okeys_eqb (m_keys q) (keys_in_range best cx (m_lo q) (m_hi q) s) &&
+      okeys_eqb (m_send q) (match consume (versioned_range best cx (m_lo q) (m_hi q) true s) with
+                            | Ok l => Ok (map fst l) | Err => Err | Panic => Panic end)) queries
   | CDeleteRange i v before table lo hi go_ok after _ _ _ _ _ _ =>
     match delete_range (best_of table) (cxof i v) lo hi before with
     | Ok s' => go_ok && store_eqb s' after
@@ -198,6 +223,27 @@ Definition spec_class (c : c05case) : nat :=
       | Panic => 6%nat
       end in
     fold_left worse (map (spec_query table s points) queries) (worse c_keys c_multi)
+  | CMulti i v s table points queries =>
+    let universe := sort_keys (map fst points) in
+    let get_db tk := match find (fun p => bytes_eqb (fst p) tk) points with Some (_, g) => g | None => Ok None end in
+    let conflict tk := match find (fun e => bytes_eqb (fst e) tk) table with Some (_, VConflict) => true | _ => false end in
+    fold_left worse (map (fun q =>
+      let inside := filter (in_interval (m_lo q) (m_hi q)) universe in
+      let expected := filter (fun tk => found (get_db tk)) inside in
+      if existsb conflict inside then
+        match m_range q, m_keys q with Err, Err => 0%nat | _, _ => 4%nat end
+      else
+        match m_range q, m_keys q, m_process q, m_send q with
+        | Ok rg, Ok ks, Ok pr, Ok sk =>
+          let vals_ok l := forallb (fun e => match get_db (fst e) with Ok (Some v) => bytes_eqb v (snd e) | _ => false end) l in
+          if keys_eqb (map fst rg) expected && vals_ok rg &&
+             keys_eqb ks expected &&
+             keys_eqb (map fst pr) expected && vals_ok pr &&
+             keys_eqb (map key_tkey sk) expected
+          then 0%nat else 1%nat
+        | Panic, _, _, _ | _, Panic, _, _ | _, _, Panic, _ | _, _, _, Panic => 6%nat
+        | _, _, _, _ => 4%nat
+        end) queries) 0%nat
   | CDeleteRange i v before table lo hi go_ok after reads_before reads_after keys_before keys_after keys_after_in desc =>
     if negb go_ok then 6%nat
     else
